@@ -333,6 +333,8 @@ impl ReadCursor {
 
 impl Drop for ReadCursor {
     fn drop(&mut self) {
+        #[cfg(multiqueue2_verif)]
+        let _quiet = crate::verif_hooks::quiet();
         // The currently published group is never handed to the memory manager
         unsafe {
             let current_group = self.readers.load(Ordering::Relaxed);
